@@ -2,6 +2,26 @@
 over the shards; budgets are case counts, never time."""
 
 PROPS = {
+    "C02": {
+        "pkg": "c02", "needs_gw": True, "level": "exploration",
+        "technique": "property-based testing (rapid) over an endpoint catalogue x credential-defect x body cross product; oracle = 4xx + byte-level storage snapshot equality + canary scan, with the harness' own SigV4 implementation as soundness filter",
+        "level_text": ("Generated-input search: every S3/admin operation of the catalogue (plus free method / query draws) x path shape incl. trailing "
+                       "slash x target x caller is built valid with the harness' own signer, then damaged by exactly one of 17 header-auth or 10 "
+                       "presign defects (missing/malformed/unknown key/wrong secret/altered signature, header, query, path, payload/payload hash/"
+                       "date skew/scope/expiry ...) x body kind (none, small, 64 KiB, aws-chunked, declared-but-short). The damaged request must "
+                       "be answered 4xx, leave the snapshot of root+versioning+sidecar+IAM+outside directories unchanged and disclose no canary; "
+                       "the undamaged twin shows whether the route does anything for a valid caller. In-process engine (fresh gateway + fixture per "
+                       "case) for volume, the shipped binary for the real wiring."),
+        "level_note": "a damaged request that still carries a correct proof according to the harness' signer is discarded and counted, never judged; a presigned URL dated in the future is not treated as a defect (the statement does not list it). Exploration only.",
+        "rule": ("case = (config, catalogue op, bucket, key, slash, caller, header/presign, body kind, defect, arg, short). Non-trivial: the undamaged twin "
+                 "succeeded (in-process) / the catalogue marks the route as mutating (real process); distinct by (op, bucket, key, slash, defect, body, presign, short, engine)."),
+        "assumptions": ["in-process engine replicates cmd/versitygw runGateway wiring; the TestC02P share runs the real binary",
+                        "time.Now() is used for signing dates only (window checks are +-15 min / hours apart, never near a boundary)"],
+        "jobs": [
+            {"run": "TestC02A", "quick": 16000, "thorough": 600000, "shards_quick": 12, "shards_thorough": 16},
+            {"run": "TestC02P", "quick": 4000, "thorough": 100000, "shards_quick": 4, "shards_thorough": 16},
+        ],
+    },
     "C17": {
         "pkg": "c17", "needs_gw": True, "level": "exploration",
         "technique": "stateful property-based testing (rapid) with a harness-owned schedule + linearizability checking (porcupine): generated create/update/delete/lookup histories on auth.IAMCache over a parking stub service, concurrent mutations of the internal store, end-to-end admin programs",
